@@ -390,6 +390,50 @@ Definition c02_row (c : cfg) (ns0 : list node) (ops : list op) (its : list (snap
 Definition c04_row (c : cfg) (ns0 : list node) (ops : list op) (its : list (snap * list Z)) : list bool :=
   corr_bit c ns0 ops its :: c04_bits c ns0 ops its.
 
+(* ------------------------------------------------------------------ *)
+(* C08 (scheduler side): cancel stops the named tasks and nothing else   *)
+(* ------------------------------------------------------------------ *)
+Definition has_canceled (u : Z) (evs : list event) : bool :=
+  existsb (fun e => match e with Canceled v => v =? u | _ => false end) evs.
+Definition has_started (u : Z) (evs : list event) : bool :=
+  existsb (fun e => match e with Started v _ => v =? u | _ => false end) evs.
+Definition has_failed (u : Z) (evs : list event) : bool :=
+  existsb (fun e => match e with Failed v _ => v =? u | _ => false end) evs.
+
+(* a named waiting task leaves the pool in the iteration that consumes the
+   request: CANCELED -- unless the wait-pool pass of that same iteration, which
+   runs before the request is read, started or failed it *)
+(* [named]: uids named in any request so far; [pend]: named since the last
+   iteration; [late]: uids that arrived after they had been named *)
+Fixpoint c08_walk (ops : list op) (its : list (snap * list Z)) (named pend late prev_pool : list Z)
+  (a1 a2 a3 : bool) : list bool :=
+  match ops with
+  | [] => [a1; a2; a3]
+  | CancelMsg us :: r => c08_walk r its (named ++ us) (pend ++ us) late prev_pool a1 a2 a3
+  | Arrive l :: r =>
+      c08_walk r its named pend (late ++ filter (fun u => zmem u named) (map r_uid l)) prev_pool a1 a2 a3
+  | Iterate _ :: r =>
+      match its with
+      | [] => [a1; a2; a3]
+      | (sn, _) :: its' =>
+          let evs := sn_events sn in
+          let pool := concat (map snd (sn_pool sn)) in
+          let b1 := forallb (fun u => if zmem u prev_pool
+                                      then (has_canceled u evs || has_started u evs || has_failed u evs) && negb (zmem u pool)
+                                      else true) pend in
+          let b2 := forallb (fun e => match e with Canceled u => zmem u named | _ => true end) evs in
+          let b3 := forallb (fun e => match e with Started u _ => negb (zmem u late) | _ => true end) evs in
+          c08_walk r its' named [] late pool (a1 && b1) (a2 && b2) (a3 && b3)
+      end
+  | _ :: r => c08_walk r its named pend late prev_pool a1 a2 a3
+  end.
+
+Definition c08_bits (ops : list op) (its : list (snap * list Z)) : list bool :=
+  c08_walk ops its [] [] [] [] true true true.
+
+Definition c08_sched_row (c : cfg) (ns0 : list node) (ops : list op) (its : list (snap * list Z)) : list bool :=
+  corr_bit c ns0 ops its :: c08_bits ops its.
+
 (* diagnostics for harness development: per snapshot, per field agreement *)
 Definition snap_diag (a b : snap) : list bool :=
   [ eqb_list event_eqb (sn_events a) (sn_events b);
